@@ -28,30 +28,30 @@ Print Assumptions C20_history_Inv.
 
 Theorem C20_reachable_Inv : forall (A : Type) (dflt : A) k L st,
   kind_wfb k = true -> reachable A dflt k L st ->
-  Inv A st /\ (supported k L = true -> snd (st_off st) = layout_strides L (st_shape st)).
+  Inv A st /\ snd (st_off st) = layout_strides L (st_shape st).
 Proof.
   intros A dflt k L st Hk Hr. pose proof (reachable_Inv A dflt k L st Hk Hr) as HI.
-  split; [exact HI|]. intros Hs.
+  split; [exact HI|].
   destruct (reachable_kind_layout A dflt k L st Hr) as [E1 E2].
-  rewrite <- E2 at 1. apply (Inv_offset_strides A st HI). now rewrite E1, E2.
+  rewrite <- E2 at 1. exact (Inv_offset_strides A st HI).
 Qed.
 Print Assumptions C20_reachable_Inv.
 
 (* distinct in-bounds indices address distinct cells of the buffer, every in-bounds index
    addresses a cell, and reading after writing returns the written value at that index
-   and the old value everywhere else (C01 applied to the invariant) *)
+   and the old value everywhere else (C01 applied to the invariant) — every kind, clipped
+   shapes and both layouts included *)
 Theorem C20_distinct_indices_distinct_cells : forall (A : Type) (st : state A) i j x,
-  Inv A st -> supported (st_kind st) (st_layout st) = true ->
-  inb i (st_shape st) -> inb j (st_shape st) ->
+  Inv A st -> inb i (st_shape st) -> inb j (st_shape st) ->
   0 <= st_offset st i < Z.of_nat (length (st_data st))
   /\ (st_offset st i = st_offset st j -> i = j)
   /\ (exists v, get st i = Some v)
   /\ get (write st i x) j = (if list_eq_dec Z.eq_dec j i then Some x else get st j).
 Proof.
-  intros A st i j x HI Hs Hi Hj.
-  destruct (distinct_indices_distinct_cells A st i j HI Hs Hi Hj) as (H1 & H2 & H3).
+  intros A st i j x HI Hi Hj.
+  destruct (distinct_indices_distinct_cells A st i j HI Hi Hj) as (H1 & H2 & H3).
   split; [exact H1|]. split; [exact H2|]. split; [exact H3|].
-  exact (get_write A st i j x HI Hs Hi Hj).
+  exact (get_write A st i j x HI Hi Hj).
 Qed.
 Print Assumptions C20_distinct_indices_distinct_cells.
 
@@ -135,22 +135,18 @@ Proof.
 Qed.
 Print Assumptions C20_hybrid_ndarray.
 
-Theorem C20_dynamic_ndarray_on_domain : forall (A : Type) (dflt : A) (st : dstate A) sizes i x,
+Theorem C20_dynamic_ndarray : forall (A : Type) (dflt : A) (st : dstate A) sizes i x,
   nonneg sizes ->
-  d_Inv A (d_resize dflt st sizes) /\ d_shape (d_resize dflt st sizes) = sizes
+  d_Inv A (d_init dflt)
+  /\ d_Inv A (d_resize dflt st sizes) /\ d_shape (d_resize dflt st sizes) = sizes
   /\ (d_Inv A st -> d_Inv A (d_write st i x)).
 Proof.
   intros A dflt st sizes i x Hn. destruct (d_resize_Inv A dflt st sizes Hn) as [H1 H2].
-  split; [exact H1|]. split; [exact H2|]. exact (d_write_Inv A st i x).
+  split; [exact (d_init_Inv A dflt)|]. split; [exact H1|]. split; [exact H2|]. exact (d_write_Inv A st i x).
 Qed.
-Print Assumptions C20_dynamic_ndarray_on_domain.
+Print Assumptions C20_dynamic_ndarray.
 
 (* ---------- refutations (the faithful model violates the full statement) ---------- *)
-
-(* a default-constructed dynamic_ndarray: shape () has product 1, the object has no element *)
-Theorem C20_dynamic_default_ctor_refuted : exists st : dstate Z, st = d_init /\ ~ d_Inv Z st.
-Proof. exists d_init. split; [reflexivity | exact (d_init_not_Inv Z)]. Qed.
-Print Assumptions C20_dynamic_default_ctor_refuted.
 
 (* strides() of a column-major array does not match the layout: after resize(2,3) the
    member strides_ is (3,1) while the layout's strides are (1,2) *)
@@ -170,19 +166,6 @@ Proof.
   intros A dflt k st Hk Hr. destruct (reachable_Inv A dflt k RowMajor st Hk Hr) as (_ & Hs & _). exact Hs.
 Qed.
 Print Assumptions C20_strides_accessor_on_domain.
-
-(* column-major array with a clipped shape: two distinct in-bounds indices address one cell *)
-Theorem C20_colmajor_clipped_aliasing_refuted :
-  exists st : state Z, reachable Z 0 (mkKind (SClipped [3; 4]) BDynamic) ColMajor st
-    /\ inb [1; 1] (st_shape st) /\ inb [0; 2] (st_shape st)
-    /\ st_offset st [1; 1] = st_offset st [0; 2].
-Proof.
-  exists (snd (resize 0 (init 0 (mkKind (SClipped [3; 4]) BDynamic) ColMajor) [2; 3])).
-  split; [apply r_resize; [apply r_init | repeat constructor; lia]|].
-  split; [vm_compute; repeat constructor; lia|]. split; [vm_compute; repeat constructor; lia|].
-  vm_compute. reflexivity.
-Qed.
-Print Assumptions C20_colmajor_clipped_aliasing_refuted.
 
 (* ---------- non-vacuity ---------- *)
 Definition k_fd := mkKind (SFixedDim 2) BDynamic.           (* std::array<size_t,2> shape, std::vector buffer *)
@@ -206,7 +189,7 @@ Example C20_nonvacuous_refusal :
 Proof. vm_compute. repeat split. Qed.
 Example C20_nonvacuous_history :
   let h := [Resize [2; 3]; Write [1; 2] 7; Resize [2; 3; 4]; Copy; Write [0; 1] 5; Resize [3; 2]] in
-  Forall (op_ok Z) h /\ supported k_bb ColMajor = true
+  Forall (op_ok Z) h
   /\ st_shape (run 0 (init 0 k_bb ColMajor) h) = [3; 2]
   /\ st_strides (run 0 (init 0 k_bb ColMajor) h) = [2; 1]
   /\ snd (st_off (run 0 (init 0 k_bb ColMajor) h)) = [1; 3].
@@ -221,3 +204,11 @@ Example C20_nonvacuous_cast :
   let src := write (snd (resize 0 (init 0 (mkKind SDynamic BDynamic) ColMajor) [2; 2])) [1; 0] 7 in
   exists r, cast 0 (fun z => z + 1) src k_bb = Some r /\ st_shape r = [2; 2] /\ get r [1; 0] = Some 8 /\ get r [0; 1] = Some 1.
 Proof. eexists. vm_compute. repeat split. Qed.
+(* column-major array with a clipped shape (the former aliasing witness): offsets of (1,1) and (0,2) differ *)
+Example C20_nonvacuous_colmajor_clipped :
+  let st := snd (resize 0 (init 0 (mkKind (SClipped [3; 4]) BDynamic) ColMajor) [2; 3]) in
+  inb [1; 1] (st_shape st) /\ inb [0; 2] (st_shape st)
+  /\ st_offset st [1; 1] = 3 /\ st_offset st [0; 2] = 4 /\ snd (st_off st) = [1; 2].
+Proof. vm_compute. repeat split; repeat constructor; lia. Qed.
+Example C20_nonvacuous_dynamic_default : d_shape (d_init 0) = [] /\ d_data (d_init 0) = [0] /\ d_numel (d_init 0) = Some 1.
+Proof. repeat split. Qed.
